@@ -79,6 +79,8 @@ class C16Monitor(X.Monitor):
         samples, actors = plan["world"]["samples"], plan["world"]["actors"]
         vis_mode = plan["storage"].get("visibility", "t4")
         ctx.probe("c16_loads")
+        if plan["storage"].get("stamp_lag_us"):
+            ctx.probe("c16_sensor_records_stamped_after_sample")
         if len(frames) != len(samples):
             ctx.violate("C16", "frames_in_order", "%d frames loaded for %d samples" % (len(frames), len(samples)), {})
             return
